@@ -1,9 +1,14 @@
 """Generated/Match.lean: the guard of match.py on the loaded chain (boolean AST), and the constants/relations of the
-zero-snapping and code-length statements of match.main.  Fail closed on any shape not listed here."""
+zero-snapping and code-length statements of match.main; the statement order (nll test < nparams==0 < guard < conversion < Fisher test),
+where the conversion is the `try: p, fish = simplifier.convert_params(...)` block or an `if <chain empty>: p = ...; fish = ... else: ...; try:
+...convert_params...` split (`convShortcutOnEmptyChain`); and the ALIAS table `snapPaths` (one entry per array written in place inside the
+loop and origin reaching the write, `snapTargetFresh` = fresh row-local array; rules in _norm_c05.py) that
+`ESR.C05.rows_do_not_share_state` decides.  Fail closed on any shape not listed here."""
 import ast
 from fractions import Fraction
 import extract
 from extract import ExtractError, lstr
+from extractors import _norm_c05
 
 extract.MODELLED += [
     ("esr/fitting/match.py", None, "main"),
@@ -111,6 +116,40 @@ def _codelen_consts(node):
     return (_frac(l.left.right, "codelen divisor"), _frac(l.right.args[0], "codelen log base"), _frac(s1.left, "codelen Fisher weight"))
 
 
+def _find_convert(loop):
+    """the statement of the loop body that produces `p, fish`: either the `try: p, fish = simplifier.convert_params(...)` block
+    itself, or an `if <chain empty>: <plain assignments to p, fish> else: <plain assignments>; try: ...convert_params...` split
+    (either orientation).  -> (index in loop.body, has_shortcut)"""
+    hits = [(k, n) for k, n in enumerate(loop.body) if "simplifier.convert_params" in ast.unparse(n)]
+    if len(hits) != 1:
+        raise ExtractError("match.main: expected exactly one statement calling simplifier.convert_params in the loop body, found %d" % len(hits))
+    k, n = hits[0]
+    if isinstance(n, ast.Try):
+        return k, False
+    if isinstance(n, ast.If):
+        t = _bexp(n.test)
+        if t == "(.not (.atom .lenPos))":
+            short, slow = n.body, n.orelse
+        elif t == "(.atom .lenPos)":
+            short, slow = n.orelse, n.body
+        else:
+            raise ExtractError("match.main: convert_params under a test that is not `chain empty / non-empty`: %s (line %d)" % (ast.unparse(n.test), n.lineno))
+        bound = set()
+        for st in short:
+            if not (isinstance(st, ast.Assign) and len(st.targets) == 1 and isinstance(st.targets[0], ast.Name)):
+                raise ExtractError("match.main: empty-chain shortcut holds a statement that is not a plain assignment to a name (line %d)" % st.lineno)
+            bound.add(st.targets[0].id)
+        if not {"p", "fish"} <= bound:
+            raise ExtractError("match.main: empty-chain shortcut does not bind both `p` and `fish` (line %d)" % n.lineno)
+        if not slow or not isinstance(slow[-1], ast.Try) or "simplifier.convert_params" not in ast.unparse(slow[-1]):
+            raise ExtractError("match.main: non-empty-chain branch does not end in `try: ...convert_params...` (line %d)" % n.lineno)
+        for st in slow[:-1]:
+            if not (isinstance(st, ast.Assign) and len(st.targets) == 1 and isinstance(st.targets[0], ast.Name)):
+                raise ExtractError("match.main: statement before the convert_params block is not a plain assignment (line %d)" % st.lineno)
+        return k, True
+    raise ExtractError("match.main: statement order not recognised (convert_params inside a %s, line %d)" % (type(n).__name__, n.lineno))
+
+
 @extract.extractor("Match")
 def gen(stage):
     fn = extract.find_def(extract._parse(stage, REL), "main")
@@ -142,8 +181,9 @@ def gen(stage):
     try:
         i_np = next(k for k, s in enumerate(order) if s.startswith("if nparams == 0"))
         i_g = loop.body.index(g)
-        i_cv = next(k for k, n in enumerate(loop.body) if isinstance(n, ast.Try) and "simplifier.convert_params" in ast.unparse(n))
-        i_nl = next(k for k, s in enumerate(order) if s.startswith("if np.isnan(negloglike[index]) or np.isinf(negloglike[index])"))
+        i_cv, shortcut = _find_convert(loop)
+        i_nl = next(k for k, s in enumerate(order) if s.startswith("if np.isnan(negloglike[index]) or np.isinf(negloglike[index])")
+                    or s.startswith("if not np.isfinite(negloglike[index])"))
     except StopIteration:
         raise ExtractError("match.main: statement order not recognised (nll test / nparams==0 / guard / convert_params)")
     if not (i_nl < i_np < i_g < i_cv):
@@ -201,5 +241,24 @@ def gen(stage):
     out += "def snapThreshold : Nat × Nat := %s -- Nsteps < T\n" % sorted(lts)[0]
     out += "/-- `np.sum(fish<=0)>0` : a transformed Fisher entry ≤ 0 gives codelen = inf -/\n"
     out += "def fishTestIsLeZero : Bool := true\n"
+    out += ("/-- `if len(chain) == 0: p, fish = <read from the tables> else: try: convert_params` split present (the values of the shortcut are\n"
+            "not in this table: `RowIn.conv` is an input of the model either way and the correspondence compares it with the real rows) -/\n")
+    out += "def convShortcutOnEmptyChain : Bool := %s\n\n" % ("true" if shortcut else "false")
+    # ---- alias fact: every array written in place inside the loop is fresh (row-local) on every path ------------------
+    rows, own = _norm_c05.analyse(fn, loop)
+    if not any(t == "p" for t, _, _, _ in rows):
+        raise ExtractError("match.main: no in-place write to the parameter vector `p` found (zero-snapping statement not recognised)")
+    out += ("/-- One entry per (array written in place inside the per-row loop, origin that can reach the write).  `snapTargetFresh` = the\n"
+            "origin is a new, row-local array (copy / constructor / arithmetic / result of convert_params), not (a view of) a table that\n"
+            "outlives the row (`params_meas`, `all_fish`, ...).  Writes into the row's own output slot (`codelen[i]`, `params[i,:]`, ...: %d\n"
+            "statements) are not listed.  Rules: harness/extractors/_norm_c05.py. -/\n" % own)
+    out += "structure SnapPath where\n  target : String\n  origin : String\n  snapTargetFresh : Bool\n  deriving Repr, DecidableEq\n\n"
+    out += "def snapPaths : List SnapPath := [\n"
+    out += "\n".join("  ⟨%s, %s, %s⟩%s   -- line%s %s" % (lstr(t), lstr(d), "true" if f else "false", "," if j + 1 < len(rows) else "",
+                                                           "s" if len(ls) > 1 else "", ", ".join(map(str, ls)))
+                     for j, (t, d, f, ls) in enumerate(rows))
+    out += "\n]\n"
+    out += "/-- no row of the loop can write into a table that a later row reads -/\n"
+    out += "def snapTargetsFresh : Bool := snapPaths.all (·.snapTargetFresh)\n"
     out += extract.footer("Match")
     return out
